@@ -331,6 +331,13 @@ func checkMinMaxDist2(ctx *Ctx, r *Report, fn *ssa.Function, dim int, key string
 		}
 	}
 	okMax := maxFold != nil && maxT.Op == "a" && recs[maxT.S] == maxFold
+	if okMax {
+		// every corner enters the maximum: the fold step is Max(running, d²) on every turn (the
+		// minimum may be seeded by the first corner, the maximum starts from 0 and must not skip one)
+		if len(findSub(maxFold.Step, func(x *Term) bool { return x.Op == "ite" })) > 0 {
+			okMax = false
+		}
+	}
 	if !okMax {
 		// written out: max over exactly the 2^d corner distances (a leading 0 is harmless)
 		seen := map[int]bool{}
